@@ -261,8 +261,11 @@ EvBalance(ev) ==
         known == ev.wl \in Wallet
         outs == IF known THEN BalanceOutcomes(book[n], ev.wl)
                 ELSE IF TipsOf(book[n]) = {} THEN {[res |-> "error", val |-> 0]} ELSE {[res |-> "ok", val |-> 0]}
+        \* a graph that holds a vertex with a non-canonical amount (only a node that is NOT loaded can: the left-over of an
+        \* aborted load from a forged stream) has no balances to speak of: the amount is not a number of units
+        junk == \E v \in book[n].live : T(v).nc
         conf == /\ ev.unchanged
-                /\ \E o \in outs : o.res = ev.res /\ (o.res = "ok" => o.val = ev.val)
+                /\ junk \/ \E o \in outs : o.res = ev.res /\ (o.res = "ok" => o.val = ev.val)
     IN /\ obs' = [GoodObs EXCEPT !.a = ev.a, !.conf = IsStrict(ev.a) => conf]
        /\ UNCHANGED <<book, vtx, inflight, trxu>>
 
